@@ -145,6 +145,37 @@ def run(chk):
                    f"{ci.name}.iter_children delegates to {deep}: it skips a level (the node's own child is never visited), while "
                    "map_children maps that child itself")  # fmt: skip
 
+    # eager type checking reaches every child: the statements of <Class>.dtype that call `.dtype()` on something
+    # must between them mention every attribute iter_children yields from (else a type error nested in that
+    # child - e.g. in a `partition_by=` / `arrange=` argument - is never raised by the verb call)
+    n_dt = 0
+    for ci in sym.colexpr_classes():
+        ic, dt = ci.methods.get("iter_children"), ci.methods.get("dtype")
+        if ic is None or dt is None:
+            continue
+        ra = {a.attr for a in ast.walk(ic) if isinstance(a, ast.Attribute) and norm(a.value) == "self" and isinstance(a.ctx, ast.Load)} - {"iter_children"}
+        checked = set()
+        for st in ast.walk(dt):
+            if not isinstance(st, ast.stmt) or isinstance(st, (ast.FunctionDef, ast.If, ast.For, ast.While, ast.Try, ast.With)):
+                # compound statements: only their header expressions
+                exprs = [getattr(st, "test", None), getattr(st, "iter", None)] if isinstance(st, (ast.If, ast.For, ast.While)) else []
+            else:
+                exprs = [st]
+            for e in exprs:
+                if e is None:
+                    continue
+                if any(isinstance(c, ast.Call) and isinstance(c.func, ast.Attribute) and c.func.attr == "dtype" and not c.args for c in ast.walk(e)):
+                    checked |= {a.attr for a in ast.walk(e) if isinstance(a, ast.Attribute) and norm(a.value) == "self"}
+        # loop variables: `for cond, val in self.cases: ... val.dtype()`
+        for loop in ast.walk(dt):
+            if isinstance(loop, ast.For) and any(isinstance(c, ast.Call) and isinstance(c.func, ast.Attribute) and c.func.attr == "dtype" for b in loop.body for c in ast.walk(b)):
+                checked |= {a.attr for a in ast.walk(loop.iter) if isinstance(a, ast.Attribute) and norm(a.value) == "self"}
+        n_dt += 1
+        chk.ob("R2", ci.module, dt, f"{ci.name}.dtype type-checks every child attribute {sorted(ra)}", ra <= checked,
+               f"{ci.name}.dtype() calls .dtype() on {sorted(checked & ra)} only, but the node's children also live in {sorted(ra - checked)}: "
+               "type errors nested there are not raised when the expression is built / preprocessed")  # fmt: skip
+    chk.floor("R2", "expression classes with own dtype() and iter_children()", n_dt, 3)
+
     # ---- R3
     ce = repo.mod("tree.col_expr")
     for cname in ("ColFn", "CaseExpr", "Cast"):
